@@ -1,6 +1,7 @@
 #![allow(dead_code)]
 //! verif-harness: runs the real aiken/uplc code next to the Lean models.
 //!   verif-harness <sub-command> [--seed N] [--tier quick|thorough] [--out file] [--replay file]
+mod c13;
 mod c15;
 mod driver;
 mod prng;
@@ -22,6 +23,7 @@ fn main() {
     let sub = args[1].clone();
     let mut ctx = Ctx { seed: 1, thorough: false, replay: None };
     let mut out: Option<String> = None;
+    let mut extra: Vec<String> = vec![];
     let mut i = 2;
     while i < args.len() {
         match args[i].as_str() {
@@ -41,7 +43,7 @@ fn main() {
                 ctx.replay = Some(args[i + 1].clone());
                 i += 1;
             }
-            other => panic!("unknown argument {other}"),
+            other => extra.push(other.to_string()),
         }
         i += 1;
     }
@@ -49,6 +51,7 @@ fn main() {
     std::panic::set_hook(Box::new(|_| {}));
     let rep = match sub.as_str() {
         "c15-names" => c15::names(&ctx),
+        "c13-show" => c13::show(&ctx, &extra),
         other => {
             eprintln!("unknown sub-command {other}");
             std::process::exit(2);
